@@ -449,6 +449,31 @@ let f id vs =
       else if sub = 2 && cls >= 2 then
         "PROP Err() is not a context error after cancellation: a member tore down while a cyclical message was in flight"
       else "OK"
+    | [I "8"; layout; cap; procs; total; cancel_after; released; pd; cd] ->
+      (* the draining contract of Core.ProcessSender: a consumer whose context is cancelled keeps
+         consuming until the sender is closed (model: step_proc at PRecv with st_cancel; theorem
+         drain_reaches_zero; necessity: drain_needed_refuted) *)
+      let d = Printf.sprintf "capacity %d, %d goroutine(s), %d messages, consumer cancelled %s" (as_int cap) (as_int procs) (as_int total)
+          (if as_int cancel_after = 0 then "before the start" else Printf.sprintf "after %d releases" (as_int cancel_after)) in
+      if not (as_bool layout) then "DIFF cannot drive worker.Core (layout changed)"
+      else if as_int pd = 0 then
+        Printf.sprintf "PROP the producer is blocked on a full medium after %d of %d messages were released: the cancelled consumer stopped draining (%s)" (as_int released) (as_int total) d
+      else if as_int cd = 0 then Printf.sprintf "PROP the consumer never returned after its sender was closed (%s)" d
+      else if as_int released <> as_int total then
+        Printf.sprintf "PROP %d of %d messages were Done (%s)" (as_int released) (as_int total) d
+      else "OK"
+    | [I "9"; hang; close_hang; cls; chunk; buf; procs; size; expected; got] ->
+      (* a cycle member feeding the output and an abandoned intersection / exclusion *)
+      let exp = List.map as_bytes (as_list expected) and got = List.map as_bytes (as_list got) in
+      let d = Printf.sprintf "chunk=%d buffer=%d procs=%d size=%d" (as_int chunk) (as_int buf) (as_int procs) (as_int size) in
+      if as_int hang <> 0 then
+        Printf.sprintf "PROP teardown did not complete: the pipeline stalled at %d of %d objects although nothing was cancelled and no fault injected (%s)" (List.length got) (List.length exp) d
+      else if as_int close_hang <> 0 then Printf.sprintf "PROP Close did not return (%s)" d
+      else if as_int cls <> 0 then Printf.sprintf "PROP Err() is set after a run without fault or cancellation (%s)" d
+      else if got <> exp then
+        let missing = List.filter (fun x -> not (List.mem x got)) exp and extra = List.filter (fun x -> not (List.mem x exp)) got in
+        Printf.sprintf "PROP %d missing, %d extra, %d delivered of %d (%s)" (List.length missing) (List.length extra) (List.length got) (List.length exp) d
+      else "OK"
     | [I "6"; layout; ext] ->
       (* the hypothesis cyclic_send_never_blocks of the model, checked on the real constructor *)
       if not (as_bool layout) then "DIFF cannot read the queue of a QueueMedium (layout changed)"
